@@ -9,6 +9,7 @@ STORE_INVARIANTS = {
     "C07": ["M_C07"],
     "C11": ["M_C11_CanPut", "M_C11_CanGet", "M_C11_NotBefore", "M_C11_FromThen"],
     "C14": ["M_C14_Trips", "M_C14_CapTrigger"],
+    "C12": ["M_C12_Travel"],      # slotted belt store as a StoreCore kind (read by the belt engine)
 }
 ALL_STORE_INVS = [i for v in STORE_INVARIANTS.values() for i in v]
 
@@ -32,7 +33,12 @@ def configs(tier):
     C["buffer_lifo"] = base("buffer", Cap=2, Mode="LIFO", Delays={0, 1}, MaxLive=4)
     C["fleet_d2t1"] = base("fleet", Cap=2, FDelay=2, Transit=1, MaxLive=3 if q else 4)
     C["fleet_d1t0"] = base("fleet", Cap=2, FDelay=1, Transit=0, MaxLive=3 if q else 4)
+    # the slotted belt store behind the slotted conveyor (Trig = slot delay in ticks, travel = Cap * Trig)
+    C["slotted_c2s1"] = base("slotted", Cap=2, Trig=1, MaxLive=4)
+    C["slotted_c1s2"] = base("slotted", Cap=1, Trig=2, MaxLive=4)
+    C["slotted_c2s2"] = base("slotted", Cap=2, Trig=2, MaxLive=3 if q else 4)
     if not q:
+        C["slotted_c3s1"] = base("slotted", Cap=3, Trig=1, MaxLive=4)
         C["prio_c3"] = base("prio", Cap=3, Prios={0, 1, 2}, MaxLive=4)     # (a .cfg cannot hold negative numbers)
         C["buffer_fifo_c3"] = base("buffer", Cap=3, Delays={0, 1, 2}, MaxLive=4)
         C["buffer_lifo_c3"] = base("buffer", Cap=3, Mode="LIFO", Delays={0, 1, 2}, MaxLive=4)
@@ -58,7 +64,11 @@ def walk_configs(tier):
     W["buffer_lifo"] = base("buffer", Cap=2, Mode="LIFO", Delays={0, 1}, MaxLive=ml)
     W["fleet_d2t1"] = base("fleet", Cap=2, FDelay=2, Transit=1, MaxLive=3)
     W["fleet_d1t0"] = base("fleet", Cap=2, FDelay=1, Transit=0, MaxLive=3)
+    W["slotted_c2s1"] = base("slotted", Cap=2, Trig=1, MaxLive=3)
+    W["slotted_c1s2"] = base("slotted", Cap=1, Trig=2, MaxLive=3)
     if not q:
+        W["slotted_c2s2"] = base("slotted", Cap=2, Trig=2, MaxLive=3)
+        W["slotted_c3s1"] = base("slotted", Cap=3, Trig=1, MaxLive=3)
         W["fleet_prio"] = base("fleet", Cap=2, FDelay=2, Transit=0, Prios={0, 1}, MaxLive=3)
         W["buffer_fifo_c3"] = base("buffer", Cap=3, Delays={0, 2}, MaxLive=3)
         W["filter_mixed"] = base("filter", Cap=2, Filters={0, 2}, Tags={0, 1}, Trig=1, MaxLive=3, Procs={0})
@@ -66,4 +76,7 @@ def walk_configs(tier):
 
 
 def store_cfg_of(c):
-    return dict(kind=c["Kind"], mode=c["Mode"], cap=c["Cap"], fdelay=c["FDelay"], transit=c["Transit"], trig=c["Trig"])
+    d = dict(kind=c["Kind"], mode=c["Mode"], cap=c["Cap"], fdelay=c["FDelay"], transit=c["Transit"], trig=c["Trig"])
+    if c["Kind"] == "slotted":
+        d.update(slot=c["Trig"], acc=1)
+    return d
